@@ -44,6 +44,7 @@ from edb.common import typeutils
 
 from . import ast as qlast
 from . import quote as edgeql_quote
+from .parser.grammar import keywords as qlkeywords
 from . import qltypes
 
 
@@ -1471,7 +1472,15 @@ class EdgeQLSourceGenerator(codegen.SourceGenerator):
                 self.write(')')
         elif not self.sdlmode:
             self._write_keywords('RESET ')
-            self.write(ident_to_str(node.name))
+            # `RESET <field>` takes a plain identifier token (DEFAULT has
+            # its own production): any other keyword must be quoted here.
+            self.write(edgeql_quote.quote_ident(
+                node.name,
+                force=(
+                    node.name != 'default'
+                    and node.name.lower() in qlkeywords.edgeql_keywords
+                ),
+            ))
 
     def _eval_bool_expr(
         self,
